@@ -312,8 +312,16 @@ fn history_case(front: Front, reg: Reg, rng: &mut Prng, col: &mut Collector) {
                 let opts = DevOpts { rng_seed: Some(seed), ..Default::default() };
                 let creds = default_creds(&mut rb);
                 let mut b2: Dev = Dev::new(front, reg, creds, &opts);
-                let other = Net { nwk: rb.arr(), app: rb.arr(), addr: rb.next_u32() };
+                // (half of the time under the same device address, as after a re-activation, and further
+                // along in its uplink counter than the persisted session)
+                let other = Net { nwk: rb.arr(), app: rb.arr(), addr: if rb.bool() { net.addr } else { rb.next_u32() } };
                 b2.join_abp(other.nwk, other.app, other.addr);
+                if let (Some(mut oj), Some(up)) = (b2.session_json(), counters_at[k].0) {
+                    if up < 0xFFFF_FF00 {
+                        oj["fcnt_up"] = json!(up + 1 + rb.below(40) as u32);
+                        let _ = b2.set_session_json(&oj);
+                    }
+                }
                 let f = other.downlink(&Down { fcnt: 1, port: Some(3), payload: &[1, 2], ..Default::default() });
                 let _ = b2.transact(Action::Send { data: &[7], port: 2, confirmed: false }, &Script::rx1(f));
                 let _ = b2.take_downlinks();
